@@ -30,8 +30,13 @@ AuxDefs ==
    Sub   |-> <<Sc("q", "f32"), Sc("w", "i32")>>,
    Lst   |-> <<[Sc("xs", "u16") EXCEPT !.rep = TRUE], Sc("t", "u8")>>,
    Big   |-> <<[F0 EXCEPT !.k = "fix", !.name = "a", !.n = 150], [F0 EXCEPT !.k = "fix", !.name = "b", !.n = 150, !.pad = "z"]>>,
+   CkPkt |-> <<Sc("a", "u16"), [F0 EXCEPT !.k = "ck", !.name = "ck", !.ty = "u16", !.alg = "VSUM16"], Sc("b", "u8")>>,
+   Zeta  |-> <<Sc("K", "u8"), [F0 EXCEPT !.k = "match", !.name = "Z", !.key = "K",
+                                !.pairs = << [keys |-> << <<1>> >>, lits |-> <<"1">>, pkt |-> "A"], [keys |-> << <<2>>, <<3>> >>, lits |-> <<"2", "3">>, pkt |-> "B"] >>], Sc("tail", "u16")>>,
+   Outer |-> <<[F0 EXCEPT !.k = "obj", !.name = "Sub", !.ty = "Sub"], [F0 EXCEPT !.k = "obj", !.name = "ls", !.ty = "Lst"], Sc("t", "u8")>>,
    WithObj |-> <<[F0 EXCEPT !.k = "obj", !.name = "Sub", !.ty = "Sub"], [F0 EXCEPT !.k = "obj", !.name = "subs", !.ty = "Sub", !.rep = TRUE], Sc("z", "u8")>>]
-AuxNames == <<"A", "B", "Empty", "Sub", "Lst", "Big", "WithObj">>
+\* declaration order: the packets that reference other packets come first, so those references point forward
+AuxNames == <<"Outer", "WithObj", "Zeta", "A", "B", "Empty", "Sub", "Lst", "Big", "CkPkt">>
 
 MetaDefs ==
   << [name |-> "Code",  k |-> "fix",   ty |-> "",    n |-> 6, pad |-> "z",    ref |-> "",     doc |-> "code"],
@@ -39,7 +44,9 @@ MetaDefs ==
      [name |-> "Qty",   k |-> "int",   ty |-> "u32", n |-> 0, pad |-> "none", ref |-> "",     doc |-> "qty"],
      [name |-> "Px",    k |-> "float", ty |-> "f64", n |-> 0, pad |-> "none", ref |-> "",     doc |-> "px"],
      [name |-> "Txt",   k |-> "dyn",   ty |-> "",    n |-> 0, pad |-> "none", ref |-> "",     doc |-> "txt"],
-     [name |-> "Alias", k |-> "",      ty |-> "",    n |-> 0, pad |-> "none", ref |-> "Code", doc |-> "alias"] >>
+     [name |-> "Alias", k |-> "",      ty |-> "",    n |-> 0, pad |-> "none", ref |-> "Code", doc |-> "alias"],
+     [name |-> "BodyLen", k |-> "int", ty |-> "u16", n |-> 0, pad |-> "none", ref |-> "",     doc |-> "length of body"],
+     [name |-> "CheckSum", k |-> "int", ty |-> "u32", n |-> 0, pad |-> "none", ref |-> "",    doc |-> "checksum"] >>
 
 (* --------------------------------- cells -------------------------------- *)
 \* a cell instantiated at position i: [tag, fs (fields), aux (packet names used), meta (BOOLEAN)]
@@ -65,6 +72,10 @@ ObjCells(i) ==
 \cup { Cell("obj:inlthenref", <<[F0 EXCEPT !.k = "inl", !.name = Nm("Leg", i), !.fs = <<Sc("p", "u16")>>], [F0 EXCEPT !.k = "obj", !.name = "Sub", !.ty = "Sub"],
                                 [F0 EXCEPT !.k = "obj", !.name = Nm("others", i), !.ty = "Sub", !.rep = TRUE]>>, {"Sub"}, FALSE) }
 \cup { Cell("obj:refinsideinl", <<[F0 EXCEPT !.k = "inl", !.name = Nm("Leg", i), !.fs = <<Sc("p", "u16"), [F0 EXCEPT !.k = "obj", !.name = "Sub", !.ty = "Sub"]>>], Sc(Nm("after", i), "u8")>>, {"Sub"}, FALSE) }
+\cup { Cell("obj:withck" \o (IF r THEN ":rep" ELSE ""), <<Sc(Nm("pre", i), "u16"), [F0 EXCEPT !.k = "obj", !.name = Nm("c", i), !.ty = "CkPkt", !.rep = r], Sc(Nm("post", i), "u8")>>, {"CkPkt"}, FALSE) : r \in Reps }
+\cup { Cell("obj:withmatch" \o (IF r THEN ":rep" ELSE ""), <<[F0 EXCEPT !.k = "obj", !.name = Nm("z", i), !.ty = "Zeta", !.rep = r], Sc(Nm("post", i), "u8")>>, {"Zeta", "A", "B"}, FALSE) : r \in Reps }
+\cup { Cell("obj:depth2" \o (IF r THEN ":rep" ELSE ""), <<[F0 EXCEPT !.k = "obj", !.name = Nm("o", i), !.ty = "Outer", !.rep = r], Sc(Nm("post", i), "u8")>>, {"Outer", "Sub", "Lst"}, FALSE) : r \in Reps }
+\cup { Cell("obj:strings:rep", <<[F0 EXCEPT !.k = "obj", !.name = Nm("bs", i), !.ty = "B", !.rep = TRUE]>>, {"B"}, FALSE) }
 \cup { Cell("obj:withlist", <<[F0 EXCEPT !.k = "obj", !.name = Nm("Ls", i), !.ty = "Lst"]>>, {"Lst"}, FALSE) }
 \cup { Cell("obj:listoflists", <<[F0 EXCEPT !.k = "obj", !.name = Nm("Ls", i), !.ty = "Lst", !.rep = TRUE]>>, {"Lst"}, FALSE) }
 \cup { Cell("inl:d1" \o (IF r THEN ":rep" ELSE ""),
@@ -89,7 +100,7 @@ KeyLits(kty) ==  \* three key literals with their canonical bytes for key type k
     [] kty = "u16" -> << [l |-> "1", b |-> <<0, 1>>], [l |-> "2", b |-> <<0, 2>>], [l |-> "65535", b |-> <<255, 255>>] >>
     [] kty = "u32" -> << [l |-> "1", b |-> <<0, 0, 0, 1>>], [l |-> "2", b |-> <<0, 0, 0, 2>>], [l |-> "4294967295", b |-> <<255, 255, 255, 255>>] >>
     [] kty = "u64" -> << [l |-> "1", b |-> <<0, 0, 0, 0, 0, 0, 0, 1>>], [l |-> "2", b |-> <<0, 0, 0, 0, 0, 0, 0, 2>>],
-                         [l |-> "4294967296", b |-> <<0, 0, 0, 1, 0, 0, 0, 0>>] >>
+                         [l |-> "18446744073709551615", b |-> <<255, 255, 255, 255, 255, 255, 255, 255>>] >>
     [] kty = "i32" -> << [l |-> "1", b |-> <<0, 0, 0, 1>>], [l |-> "2", b |-> <<0, 0, 0, 2>>], [l |-> "2147483647", b |-> <<127, 255, 255, 255>>] >>
     [] OTHER       -> << [l |-> "\"AB\"", b |-> <<65, 66>>], [l |-> "\"C\"", b |-> <<67>>], [l |-> "\"DE\"", b |-> <<68, 69>>] >>
 Pair(ks, pkt) == [keys |-> [j \in 1..Len(ks) |-> ks[j].b], lits |-> [j \in 1..Len(ks) |-> ks[j].l], pkt |-> pkt]
@@ -99,17 +110,33 @@ Tables(kty) == LET K == KeyLits(kty) IN
    list     |-> << Pair(<<K[1], K[2]>>, "A"), Pair(<<K[3]>>, "B") >>,
    sameTgt  |-> << Pair(<<K[1], K[2]>>, "A"), Pair(<<K[3]>>, "A") >>,
    payloads |-> << Pair(<<K[1]>>, "Empty"), Pair(<<K[2]>>, "Lst"), Pair(<<K[3]>>, "Big") >>,
-   objpayload |-> << Pair(<<K[1]>>, "WithObj"), Pair(<<K[2]>>, "A") >>]
+   objpayload |-> << Pair(<<K[1]>>, "WithObj"), Pair(<<K[2]>>, "A") >>,
+   ckpayload |-> << Pair(<<K[1]>>, "CkPkt"), Pair(<<K[2]>>, "Zeta") >>]
 KeyField(i, kty) == IF kty = "string" THEN [F0 EXCEPT !.k = "dyn", !.name = Nm("key", i)]
                     ELSE IF kty = "char4" THEN [F0 EXCEPT !.k = "fix", !.name = Nm("key", i), !.n = 4]
                     ELSE Sc(Nm("key", i), kty)
 AuxOf(tbl) == {tbl[j].pkt : j \in 1..Len(tbl)} \cup (IF \E j \in 1..Len(tbl) : tbl[j].pkt = "WithObj" THEN {"Sub"} ELSE {})
+                                             \cup (IF \E j \in 1..Len(tbl) : tbl[j].pkt = "Zeta" THEN {"A", "B"} ELSE {})
 MatchF(i, tbl) == [F0 EXCEPT !.k = "match", !.name = Nm("body", i), !.key = Nm("key", i), !.pairs = tbl]
 MatchCells(i) == { LET tbl == Tables(kty)[form] IN
                    Cell("match:" \o kty \o ":" \o form, <<KeyField(i, kty), MatchF(i, tbl)>>, AuxOf(tbl), FALSE) :
                      kty \in {"u8", "u16", "u32", "u64", "i32", "string", "char4"}, form \in {"one", "two", "list", "sameTgt", "payloads"} }
                  \cup { LET tbl == Tables(kty)["objpayload"] IN
                         Cell("match:" \o kty \o ":objpayload", <<KeyField(i, kty), MatchF(i, tbl)>>, AuxOf(tbl), FALSE) : kty \in {"u16", "string"} }
+                 \* two match fields over different key fields in one packet
+                 \cup { LET t1 == Tables("u8")["two"] t2 == Tables("u16")["list"] IN
+                        Cell("match:twofields", <<Sc(Nm("ka", i), "u8"), Sc(Nm("kb", i), "u16"),
+                                                  [F0 EXCEPT !.k = "match", !.name = Nm("ba", i), !.key = Nm("ka", i), !.pairs = t1],
+                                                  Sc(Nm("mid", i), "u8"),
+                                                  [F0 EXCEPT !.k = "match", !.name = Nm("bb", i), !.key = Nm("kb", i), !.pairs = t2]>>, AuxOf(t1) \cup AuxOf(t2), FALSE) }
+                 \* key and match inside an inline object
+                 \cup { LET t == Tables("u8")["two"] IN
+                        Cell("match:insideinl", <<[F0 EXCEPT !.k = "inl", !.name = Nm("Env", i),
+                                                     !.fs = <<Sc("kind", "u8"), [F0 EXCEPT !.k = "match", !.name = "payload", !.key = "kind", !.pairs = t]>>],
+                                                  Sc(Nm("after", i), "u16")>>, AuxOf(t), FALSE) }
+                 \* a checksum inside the payload (its prefix includes the enclosing packet's bytes), a match inside the payload
+                 \cup { LET tbl == Tables("u16")["ckpayload"] IN
+                        Cell("match:u16:ckpayload", <<Sc(Nm("pre", i), "u32"), KeyField(i, "u16"), MatchF(i, tbl), Sc(Nm("post", i), "u8")>>, AuxOf(tbl), FALSE) }
 
 \* length-of: only in the root packet, at most one per program (Validate.tla), so only at position 1
 LenCells(i) == IF i # 1 THEN {} ELSE
